@@ -24,6 +24,7 @@ type Env struct {
 	noHeap  bool // inside a spec function body
 	specPkg string
 	reveal  map[string]bool // opaque predicates expanded in this evaluation
+	loopEntry *State        // loop invariants: the state in which the loop was entered (atentry)
 	retIdx  int             // postconditions: ordinal of the return site being checked (-1 elsewhere)
 }
 
@@ -543,6 +544,64 @@ func (env *Env) call(x *SCall) Value {
 		k := env.evalI(x.Args[1])
 		ver := Select(env.st.heapArr("M_content", SArr), mv.L[0])
 		return boolVal(env.st.mhas(ver, k))
+	case "mapNonNil", "mapSame":
+		// mapNonNil(m, k): the entry of m under the abstract key k is a non-nil pointer/interface
+		// (false when there is no entry); mapSame(m1, k1, m2, k2): the two entries hold the same
+		// value (all modelled words equal; both absent counts as the same)
+		mv := env.eval(x.Args[0])
+		mt, isMap := mv.Typ.Underlying().(*types.Map)
+		if !isMap {
+			env.fail("%s: map expected, got %v", x.Fn, mv.Typ)
+		}
+		k := env.evalI(x.Args[1])
+		ver := Select(env.st.heapArr("M_content", SArr), mv.L[0])
+		word := func(ver, k Term, i int) Term {
+			// an absent key reads as zero
+			return Ite(env.st.mhas(ver, k), env.st.mval(ver, k, i), I(0))
+		}
+		if x.Fn == "mapNonNil" {
+			return boolVal(Not(Eq(word(ver, k, 0), I(0))))
+		}
+		mv2 := env.eval(x.Args[2])
+		k2 := env.evalI(x.Args[3])
+		ver2 := Select(env.st.heapArr("M_content", SArr), mv2.L[0])
+		var cs []Term
+		for i, l := range flatten(mt.Elem()) {
+			if l.Sort == SInt {
+				cs = append(cs, Eq(word(ver, k, i), word(ver2, k2, i)))
+			}
+		}
+		return boolVal(And(cs...))
+	case "mapUnchanged":
+		// mapUnchanged(m): the content of map m is what it was in the old state
+		if env.old == nil {
+			env.fail("mapUnchanged() needs a two-state context")
+		}
+		mv := env.eval(x.Args[0])
+		if _, isMap := mv.Typ.Underlying().(*types.Map); !isMap {
+			env.fail("mapUnchanged: map expected")
+		}
+		return boolVal(And(
+			Eq(Select(env.st.heapArr("M_content", SArr), mv.L[0]), Select(env.old.heapArr("M_content", SArr), mv.L[0])),
+			Eq(env.st.heapArr("GH_mepoch", SInt), env.old.heapArr("GH_mepoch", SInt))))
+	case "ikeyAs":
+		// ikeyAs(x, T): the key of x wrapped in the one-field struct type T (a marker type that
+		// gives the same message a second key)
+		v := env.eval(x.Args[0])
+		if v.Place != nil || len(v.L) != 1 {
+			env.fail("ikeyAs: pointer expected")
+		}
+		t := env.resolveType(typeExprString(x.Args[1]))
+		env.enc.declareFun("ikey", []string{"Int", "Int"}, "Int")
+		return intVal(app(SInt, "ikey", env.enc.typeID(t), v.L[0]))
+	case "atentry":
+		// atentry(E): E read in the heap as it was when the loop was entered (loop invariants)
+		if env.loopEntry == nil {
+			env.fail("atentry() is only available in loop invariants")
+		}
+		n := *env
+		n.st = env.loopEntry
+		return n.eval(x.Args[0])
 	case "skey":
 		sv := env.eval(x.Args[0])
 		k, ok := env.enc.mapKey(sv)
